@@ -299,4 +299,118 @@ def recovers (b : Bytes) (extType : Nat) (ll : List Lookup) : Bool :=
           | _, _ => false
       | _, _ => false
 
+/-! ### Model of `readLookupList` (the Go reader), with the subtable reader of the verification hook:
+an extension record (lookup type `extType`, format 1) is decoded by `readExtensionSubtable`, every
+other subtable is represented by the position it would be read from.  Correspondence only
+(stream `otl.ll.read`); the theorems use the specification reader above. -/
+
+def rdAt (b : Bytes) (p : Nat) : Outcome Nat :=
+  match u16at b p with
+  | some v => .ok v
+  | none => .err eIO
+
+def rdAtN (b : Bytes) (p : Nat) : (n : Nat) → Outcome (List Nat)
+  | 0 => .ok []
+  | n + 1 =>
+    match rdAt b p with
+    | .ok v =>
+      match rdAtN b (p + 2) n with
+      | .ok r => .ok (v :: r)
+      | o => o
+    | .err e => .err e
+    | .panic s => .panic s
+
+/-- the hook's subtable reader: `inl (type, offset)` for an extension record, `inr pos` otherwise -/
+def srHook (b : Bytes) (extType tp p : Nat) : Outcome (Sum (Nat × Nat) Nat) :=
+  if tp == extType then
+    match rdAt b p with
+    | .ok fmt =>
+      if fmt != 1 then .err eInvalid
+      else match rdAtN b (p + 2) 3 with
+        | .ok [et, hi, lo] => .ok (.inl (et, hi * 65536 + lo))
+        | .ok _ => .err eIO
+        | .err e => .err e
+        | .panic s => .panic s
+    | .err e => .err e
+    | .panic s => .panic s
+  else .ok (.inr p)
+
+def srAll (b : Bytes) (extType tp lp : Nat) : List Nat → Outcome (List (Sum (Nat × Nat) Nat))
+  | [] => .ok []
+  | o :: os =>
+    match srHook b extType tp (lp + o) with
+    | .ok x =>
+      match srAll b extType tp lp os with
+      | .ok xs => .ok (x :: xs)
+      | o' => o'
+    | .err e => .err e
+    | .panic s => .panic s
+
+/-- the second pass over an extension lookup: all records must be extension records of type `tp` -/
+def resolveExt (lp tp : Nat) : List Nat → List (Sum (Nat × Nat) Nat) → Outcome (List Nat)
+  | o :: os, .inl (et, eo) :: xs =>
+    if et != tp then .err eInvalid
+    else match resolveExt lp tp os xs with
+      | .ok r => .ok ((lp + o + eo) :: r)
+      | o' => o'
+  | _ :: _, .inr _ :: _ => .err eInvalid
+  | _, _ => .ok []
+
+structure ReadLookup where
+  type : Nat
+  flags : Nat
+  mfs : Nat
+  subPos : List Nat
+
+def readLookups (b : Bytes) (extType : Nat) : List Nat → (numL numS : Nat) → Outcome (List ReadLookup)
+  | [], _, _ => .ok []
+  | lp :: lps, numL, numS =>
+    match rdAtN b lp 3 with
+    | .ok [tp, flags, cnt] =>
+      if numL + 1 + (numS + cnt) > 6000 then .err eInvalid
+      else match rdAtN b (lp + 6) cnt with
+        | .ok offs =>
+          let mfsR : Outcome Nat := if flags / 16 % 2 == 1 then rdAt b (lp + 6 + 2 * cnt) else .ok 0
+          match mfsR with
+          | .ok mfs =>
+            match srAll b extType tp lp offs with
+            | .ok subs =>
+              let here : Outcome ReadLookup :=
+                match subs with
+                | .inl (et, _) :: _ =>
+                  if et == tp then .err eInvalid
+                  else match resolveExt lp et offs subs with
+                    | .ok ps => .ok ⟨et, flags, mfs, ps⟩
+                    | .err e => .err e
+                    | .panic s => .panic s
+                | _ => .ok ⟨tp, flags, mfs, subs.filterMap fun x => match x with
+                    | .inr p => some p
+                    | .inl _ => none⟩
+              match here with
+              | .ok l =>
+                match readLookups b extType lps (numL + 1) (numS + cnt) with
+                | .ok ls => .ok (l :: ls)
+                | o => o
+              | .err e => .err e
+              | .panic s => .panic s
+            | .err e => .err e
+            | .panic s => .panic s
+          | .err e => .err e
+          | .panic s => .panic s
+        | .err e => .err e
+        | .panic s => .panic s
+    | .ok _ => .err eIO
+    | .err e => .err e
+    | .panic s => .panic s
+
+def readLL (b : Bytes) (extType : Nat) : Outcome (List ReadLookup) :=
+  match rdAt b 0 with
+  | .ok cnt =>
+    match rdAtN b 2 cnt with
+    | .ok lps => readLookups b extType lps 0 0
+    | .err e => .err e
+    | .panic s => .panic s
+  | .err e => .err e
+  | .panic s => .panic s
+
 end SfntV.Otl.LL
